@@ -10,7 +10,26 @@
 From VF Require Export Common.Base.
 Local Open Scope Z_scope.
 
-Inductive jdata := JArr (l : list Z) | JNull | JBad.      (* argument of Unmarshal *)
+(* Argument of Unmarshal. JArr: a JSON array of ints. JDocs: a JSON array of OBJECTS for element type
+   struct{ID int `json:"id"`; Name string `json:"name,omitempty"`}; an element {ID, Name} is the code ID*16 + name
+   (name = index into a table of 16 names, 0 = ""); a field that the document omits keeps what the element it is
+   decoded into already holds (encoding/json merges into existing elements). *)
+Inductive jdoc := DInt (z : Z) | DRec (id name : option Z).
+Inductive jdata := JArr (l : list Z) | JDocs (ds : list jdoc) | JNull | JBad.
+
+Definition merge_doc (old : Z) (d : jdoc) : Z :=
+  match d with
+  | DInt z => z
+  | DRec oi on => (match oi with Some i => i | None => old / 16 end) * 16
+                  + (match on with Some n => n | None => old mod 16 end)
+  end.
+(* document i is decoded into element i of the CONTENTS; past the end into a zero element - never into anything
+   that is not part of the contents (a removed element, spare capacity) *)
+Fixpoint merge_all (c : list Z) (ds : list jdoc) : list Z :=
+  match ds with
+  | [] => []
+  | d :: t => merge_doc (hd 0 c) d :: merge_all (tl c) t
+  end.
 
 Inductive meth :=
 | MEqualFunc (es : list Z) (f : Z -> Z -> bool)
@@ -179,6 +198,7 @@ Definition pure_recv (m : meth) (c : list Z) : list Z :=
   | MFilter f => filter f c
   | MReverse => rev c
   | MUnmarshal (JArr l) => l
+  | MUnmarshal (JDocs ds) => merge_all c ds
   | MUnmarshal JNull => []
   | MSwap i j => if bad_index n i || bad_index n j then c else swap 0 c (Z.to_nat i) (Z.to_nat j)
   | MClear => []
@@ -247,6 +267,15 @@ Definition copying (m : meth) : bool :=
   | MFilterTo _ _ | MReverseTo _ | MAppendTo _ _ | MCopyTo _ | MGetByRange _ _ _ => true
   | _ => false
   end.
+
+(* methods that rebind the receiver to storage of their own: nothing that was handed out earlier (the slice the wrapper
+   was built from, a ToMetaSlice result) may be touched by any LATER method (Clear: x.e = []E{}; Filter: x.e = res) *)
+Definition detaches (m : meth) : bool := match m with MClear | MFilter _ => true | _ => false end.
+
+(* the capacity of the receiver after the call, where it is a function of the contents alone
+   (Clear: an empty slice of its own; Clip: "removes unused capacity") *)
+Definition pure_cap (m : meth) (c : list Z) : option nat :=
+  match m with MClear => Some 0%nat | MClip => Some (length c) | _ => None end.
 
 (* methods whose result is about capacity itself (excluded from capacity independence of the result) *)
 Definition about_cap (m : meth) : bool := match m with MCap => true | _ => false end.
